@@ -834,3 +834,12 @@ M("c18-implied-separation-dropped", "C18", "cola/libdialect/constraints.cpp",
   mention=["ADDSEP-SEQUENCE"])
 M("c15-delete-cluster-only-unlinks", "C15", "cola/libavoid/router.cpp",
   "    m_currently_calling_destructors = true;\n    delete cluster;\n    m_currently_calling_destructors = false;\n}", "}", mention=["ROUTER-DELETE-API", "deleteCluster"])
+M("c20-makefeasible-borders-left-on-throw", "C20", "cola/libcola/colafd.cpp",
+  "    RectangleBorderReset borderReset;\n", "", mention=["BORDERS-EXCEPTION-SAFE", "makeFeasible"])
+M("c20-offsetpolygon-skips-zero-length-edge", "C20", "cola/libavoid/geomtypes.cpp",
+  "        normals[i] = unitNormalForEdge(at(i), at((i + 1) % numOfEdges));",
+  "        if (at(i) == at((i + 1) % numOfEdges)) continue;\n        normals[i] = unitNormalForEdge(at(i), at((i + 1) % numOfEdges));", mention=["SIZED-POINT-VECTORS-FILLED"])
+M("c13-attached-segment-hidden-behind-neighbour", "C13", "cola/libtopology/topology_constraints_constructor.cpp",
+  "        if ( (p<leftLimit&&!s->connectedToNode(leftNeighbour)&&\n", "        if ( (p<leftLimit&&\n", mention=["HIDDEN-SEGMENT-SKIP"])
+M("c13-cycle-prune-loses-closure", "C13", "cola/libtopology/topology_graph.cpp",
+  "        e->lastSegment=start->inSegment;", "        e->lastSegment=end->outSegment;", mention=["PRUNE-MERGE", "closed"])
